@@ -133,3 +133,19 @@ Proof.
     + constructor; [cbn; lia|]. constructor; [cbn; lia|constructor].
   - repeat constructor; cbn; lia.
 Qed.
+
+(* ---------- the policy model over the shared worker model, run on the S-greedy inputs: a simple-ledger input is
+   rendered as Worker.v workers (entry i of a worker becomes the resource key (name, RId i)) and strategies with
+   `any` requests; the decisions are compared with the real schedule() by the stream S-greedy-wl *)
+Fixpoint wl_vec (w : sworker) (i : Z) (f : entry -> Z) : rvec :=
+  match w with [] => [] | en :: r => ((e_name en, RId i), f en) :: wl_vec r (i + 1) f end.
+Definition wl_worker (w : sworker) : worker :=
+  mkWorker 0 (mkRes (wl_vec w 0 e_avail) (wl_vec w 0 e_total) []) [] [] [] [] [] 0.
+Definition wl_pool (p : pool SL) : pool WL := (fst p, map wl_worker (snd p)).
+Definition wl_strat_of (s : sstrat) : strategy :=
+  mkStrat 0 false (map (fun r => ((fst r, RAny), snd r)) (ss_req s)) 1 (ss_runtime s).
+Definition wl_task (t : task SL) : task WL := @mkTask WL (t_id t) (t_attrs t) (map wl_strat_of (t_strats t)).
+Definition g_observe_wl (i : ginput) : val :=
+  vres (vlist vdec)
+       (schedule WL (policy_of_code (gi_policy i)) (gi_enforce i) (gi_preemptive i) (gi_now i)
+                 (map wl_pool (gi_cluster i)) (map wl_task (gi_offered i))).
